@@ -1,8 +1,10 @@
 """C03 — atom syntax acceptance per EAPI and round trip (structural clauses)."""
 import ast
+import re
 
 from ..core import astutil as A
 from ..core import boolx, rx
+from ..core import match as M
 from ..core.cfg import cfg_of
 from ..core.eapitable import PMS_FIRST_ENABLED, EapiTables, module_charsets
 from ..core.model import dotted
@@ -35,6 +37,23 @@ def raises_malformed(stmts):
     return False
 
 
+def _role_text(node, roles):
+    """unparse with the locals bound in ``roles`` (role name -> current spelling) written by their role name, so that
+    tags built from code text do not depend on how a local happens to be spelled"""
+    t = A.unparse(node)
+    for role, actual in roles.items():
+        if actual and actual != role:
+            t = re.sub(rf"\b{re.escape(actual)}\b", role, t)
+    return t
+
+
+def _code_strings(fn_node):
+    """string constants of a function other than its docstring"""
+    doc = fn_node.body[0].value if (fn_node.body and isinstance(fn_node.body[0], ast.Expr) and isinstance(fn_node.body[0].value, ast.Constant)
+                                    and isinstance(fn_node.body[0].value.value, str)) else None
+    return [n.value for n in ast.walk(fn_node) if isinstance(n, ast.Constant) and isinstance(n.value, str) and n is not doc]
+
+
 def run(ctx):
     P = ctx.program
     ctx.explanation = META["level"]
@@ -44,11 +63,15 @@ def run(ctx):
 
     # ---- R1 gates -----------------------------------------------------------
     ifs = [n for n in A.body_walk(init.node) if isinstance(n, ast.If)]
+    # the local holding the EAPI object whose options gate the features (bound by how it is produced, not by its name)
+    em_ = M.one(init.node, "$eo = eapi_mod.get_eapi($_)")
+    ctx.require(em_ is not None, "atom.__init__: the EAPI object (`... = eapi_mod.get_eapi(...)`) not found")
+    eo = em_["eo"]
     for opt, what in GATES.items():
-        suffix = f".options.{opt}"
+        optkey = f"{eo}.options.{opt}"
         cands = []
         for i in ifs:
-            keys = [k for k in boolx.atoms(i.test) if k.endswith(suffix)]
+            keys = [k for k in boolx.atoms(i.test) if k == optkey]
             if keys:
                 cands.append((i, keys[0]))
         ok = False
@@ -69,25 +92,31 @@ def run(ctx):
         ctx.check("R1", init, ok, f"gate:{opt}", f"{what}: rejected with MalformedAtom when EAPI option {opt} is off",
                   f"{what} are not (or no longer unconditionally) rejected when the EAPI lacks option {opt}", node=cands[0][0] if cands else init.node)
     # sub-slot / slot-operator parsing only under sub_slotting
-    key = "eapi_obj.options.sub_slotting"
-    ss = [i for i in ifs if A.unparse(i.test) == key]
+    ss = [i for i in ifs if M.pat("$eo.options.sub_slotting").matches(i.test, em_.env)]
     ctx.require(ss, "atom.__init__: no `if eapi_obj.options.sub_slotting` branch")
     g = cfg_of(init.node)
-    sub_if = g.node_of(ss[0])
+    # the locals by role: the slot operator is what ends up in self.slot_operator; the slot chunks are what the
+    # chunk-validation loop (the loop over a local whose body rejects with MalformedAtom) iterates
+    som = (M.one(init.node, "self.slot_operator, self.slot, self.subslot = $slot_operator, $slot, $subslot")
+           or M.one(init.node, "self.slot_operator = $slot_operator"))
+    ctx.require(som is not None, "atom.__init__: the assignment of the parsed slot operator to self.slot_operator not found")
+    chunk_loops = [n for n in A.body_walk(init.node) if isinstance(n, ast.For) and isinstance(n.target, ast.Name) and isinstance(n.iter, ast.Name)
+                   and raises_malformed(n.body)]
+    ctx.require(len(chunk_loops) == 1, "atom.__init__: the slot-chunk validation loop (for <chunk> in <slots>: ... raise MalformedAtom) not found")
+    chunk_loop = chunk_loops[0]
+    roles = {"slot_operator": som["slot_operator"], "slot": som.env.get("slot"), "slots": chunk_loop.iter.id, "chunk": chunk_loop.target.id}
     gated = []
     for n in A.body_walk(init.node):
-        if isinstance(n, ast.Assign):
-            t = A.unparse(n.targets[0])
-            if t == "slot_operator" and not A.is_const(n.value, None) and "=" not in t.replace("slot_operator", ""):
-                if not (isinstance(n.value, ast.Name) and False):
-                    gated.append(n)
-            if t == "slots" and isinstance(n.value, ast.Call) and A.call_attr(n.value) == "split":
+        if isinstance(n, ast.Assign) and isinstance(n.targets[0], ast.Name):
+            t = n.targets[0].id
+            if t == roles["slot_operator"] and not A.is_const(n.value, None):
                 gated.append(n)
-    gated = [n for n in gated if not (isinstance(n.targets[0], ast.Tuple))]
+            if t == roles["slots"] and isinstance(n.value, ast.Call) and A.call_attr(n.value) == "split":
+                gated.append(n)
     ctx.require(len(gated) >= 2, "atom.__init__: slot-operator / sub-slot assignments not found")
     for n in gated:
         inside = any(p is ss[0] for p in A.parents(n)) and any(A.contains_node(s, n) for s in ss[0].body)
-        ctx.check("R1", init, inside, f"gate:sub_slotting@{A.unparse(n)[:30]}", f"`{A.unparse(n)}` happens only under EAPI option sub_slotting", node=n)
+        ctx.check("R1", init, inside, f"gate:sub_slotting@{_role_text(n, roles)[:30]}", f"`{A.unparse(n)}` happens only under EAPI option sub_slotting", node=n)
     # repository ids only without an EAPI
     repo_if = [i for i in ifs if "self.repo_id is not None" in A.unparse(i.test) and "eapi" in A.unparse(i.test)]
     ctx.require(repo_if, "atom.__init__: repository-id gate not found")
@@ -96,7 +125,7 @@ def run(ctx):
     ctx.check("R1", init, ok, "gate:repo_id", "a repository id is rejected whenever an EAPI was given", node=ri)
     # the USE-default gate is evaluated on the flag AFTER its conditional marker (?/=) was stripped
     strip_ifs = [i for i in ifs if isinstance(i.test, ast.Compare) and isinstance(i.test.ops[0], ast.In) and A.try_literal(i.test.comparators[0]) in ("=?", "?=")]
-    gate_ifs = [i for i in ifs if any(k.endswith(".options.has_use_dep_defaults") for k in boolx.atoms(i.test))]
+    gate_ifs = [i for i in ifs if f"{eo}.options.has_use_dep_defaults" in boolx.atoms(i.test)]
     ctx.require(strip_ifs and gate_ifs, "atom.__init__: conditional-marker strip or USE-default gate not found")
     doms = g.dominators()
     sn, gn = g.node_of(strip_ifs[0]), g.node_of(gate_ifs[0])
@@ -105,7 +134,10 @@ def run(ctx):
               "the USE-default EAPI gate is evaluated before the ?/= marker is stripped: x(+)? / x(-)= escape the gate in EAPIs without USE defaults", node=gate_ifs[0])
     # what the gate looks at is the stripped flag's last character
     outer = [p for p in A.parents(gate_ifs[0]) if isinstance(p, ast.If)]
-    ctx.check("R1", init, bool(outer) and A.unparse(outer[0].test) == "x[-1] == ')'", "gate-on-paren", "the gate applies to every flag ending in ')'", node=gate_ifs[0])
+    use_loop = A.enclosing(gate_ifs[0], ast.For)
+    flag = use_loop.target.id if use_loop is not None and isinstance(use_loop.target, ast.Name) else None
+    ctx.check("R1", init, bool(outer) and flag is not None and M.pat("$x[-1] == ')'").matches(outer[0].test, {"x": flag}) is not None, "gate-on-paren",
+              "the gate applies to every flag ending in ')'", node=gate_ifs[0])
     ctx.floor("R1", 9)
 
     # ---- R2 EAPI option table -------------------------------------------------
@@ -125,9 +157,11 @@ def run(ctx):
     ctx.require(isinstance(vsc, set) and isinstance(vrc, set), "atom.py: valid_slot_chars / valid_repo_chars could not be evaluated")
     # leading characters the parser rejects for slot chunks: `if chunk[0] in "<lit>"`
     lead = None
+    chunk_env = {"chunk": roles["chunk"]}
     for i in ifs:
         t = i.test
-        if isinstance(t, ast.Compare) and isinstance(t.ops[0], ast.In) and A.unparse(t.left) == "chunk[0]" and raises_malformed(i.body):
+        if (isinstance(t, ast.Compare) and isinstance(t.ops[0], ast.In) and M.pat("$chunk[0]").matches(t.left, chunk_env) and raises_malformed(i.body)
+                and A.contains_node(chunk_loop, i)):
             lead = A.try_literal(t.comparators[0])
             lead_node = i
     ctx.require(isinstance(lead, (str, tuple, list, set)), "atom.__init__: leading-character rejection for slot chunks not found")
@@ -137,11 +171,12 @@ def run(ctx):
               "a slot / sub-slot may start with [A-Za-z0-9_] only",
               f"the atom parser accepts a slot starting with {sorted(first - PMS_SLOT_FIRST)} (PMS and EAPI.valid_slot_regex forbid it; rejected leading set is {sorted(lead)!r})", node=lead_node)
     # the chunk check also enforces the body set
-    body_chk = [i for i in ifs if "valid_slot_chars.issuperset(chunk)" in A.unparse(i.test) and raises_malformed(i.body)]
+    body_chk = [i for i in ifs if A.contains_node(chunk_loop, i) and M.has(i.test, "valid_slot_chars.issuperset($chunk)", chunk_env) and raises_malformed(i.body)
+                and boolx.forced_outcome(i.test, {f"valid_slot_chars.issuperset({roles['chunk']})": False}) is True]
     ctx.check("R3", init, bool(body_chk), "slot-body-enforced", "every slot chunk is checked against valid_slot_chars")
     # sibling: EAPI.valid_slot_regex
     vsr = P.func("pkgcore.ebuild.eapi", "EAPI.valid_slot_regex")
-    lits = [s for s in A.str_constants(vsr.node) if "[" in s]
+    lits = [s for s in _code_strings(vsr.node) if "[" in s]
     ctx.require(lits, "EAPI.valid_slot_regex: literal pattern not found")
     cls = rx.classes(lits[0])
     ctx.check("R3", vsr, len(cls) >= 2 and cls[0] == PMS_SLOT_FIRST and cls[1] == PMS_SLOT_BODY, "slot-regex", "valid_slot_regex is [A-Za-z0-9_][A-Za-z0-9+_.-]*")
@@ -150,10 +185,13 @@ def run(ctx):
               "the atom parser and EAPI.valid_slot_regex accept the same slot characters",
               "atom parser and EAPI.valid_slot_regex disagree on slot characters")
     # repository ids
+    # the local that becomes self.repo_id
+    rm_ = M.one(init.node, "self.repo_id = $rid")
+    ctx.require(rm_ is not None, "atom.__init__: the assignment of the parsed repository id to self.repo_id not found")
     rlead = None
     for i in ifs:
         t = i.test
-        if isinstance(t, ast.Compare) and isinstance(t.ops[0], ast.In) and A.unparse(t.left) == "repo_id[0]" and raises_malformed(i.body):
+        if isinstance(t, ast.Compare) and isinstance(t.ops[0], ast.In) and M.pat("$rid[0]").matches(t.left, rm_.env) and raises_malformed(i.body):
             rlead = A.try_literal(t.comparators[0])
     ctx.require(rlead is not None, "atom.__init__: leading-character rejection for repo_id not found")
     ctx.check("R3", init, vrc == PMS_REPO_BODY and (vrc - set(rlead)) == PMS_REPO_FIRST, "repo-chars", "repository ids are [A-Za-z0-9_][A-Za-z0-9_-]*")
@@ -165,7 +203,7 @@ def run(ctx):
     ucls = rx.classes(pat)
     ctx.check("R3", em, len(ucls) == 2 and ucls[0] == PMS_USE_FIRST and ucls[1] == PMS_USE_BODY and pat.startswith("^") and pat.endswith("$"),
               "use-flag-regex", "USE flag names are ^[A-Za-z0-9][A-Za-z0-9+_@-]*$", node=uf)
-    ctx.check("R3", init, any("is_valid_use_flag" in A.unparse(i.test) and raises_malformed(i.body) for i in ifs), "use-flag-checked", "every USE dep flag is validated")
+    ctx.check("R3", init, any(M.has(i.test, "$eo.is_valid_use_flag($_)", em_.env) and raises_malformed(i.body) for i in ifs), "use-flag-checked", "every USE dep flag is validated")
     # package / category / version validators
     cm = P.module("pkgcore.ebuild.cpv")
     for name, want_first, want_body in (("isvalid_cat_re", PMS_SLOT_FIRST, PMS_SLOT_BODY),):
@@ -188,7 +226,7 @@ def run(ctx):
               "pkgname-rev-tail-needs-3", "the '<version>-rN' tail rule only applies to names of at least three chunks",
               "isvalid_pkg_name applies the revision-tail rule to two-chunk names: chunks[-2] is then the head of the name itself, so virtual/7z-r1 is rejected", node=rev_ifs[0])
     ver_tail = [i for i in A.body_walk(ipn.node) if isinstance(i, ast.If) and A.unparse(i.test) == "isvalid_version_re.match(chunks[-1])"]
-    ctx.check("R3", ipn, bool(ver_tail) and A.unparse(ver_tail[0].body[0]) == "return False", "pkgname-version-tail", "a name ending in '-<version>' is rejected")
+    ctx.check("R3", ipn, bool(ver_tail) and M.has(ipn.node, "if isvalid_version_re.match(chunks[-1]):\n    return False"), "pkgname-version-tail", "a name ending in '-<version>' is rejected")
     ctx.floor("R3", 11)
 
     # ---- R4 render coverage and order ----------------------------------------
@@ -215,7 +253,7 @@ def run(ctx):
     ctx.check("R4", st, first_line["slot"] < first_line["repo_id"] < first_line["use"], "render-order",
               "__str__ emits :slot before ::repo before [use] (the order the parser strips them)")
     # separators
-    txt = " ".join(A.str_constants(st.node))
+    txt = " ".join(_code_strings(st.node))
     for sep in (":", "::", "/", "[", "]", "!"):
         ctx.check("R4", st, sep in txt, f"render-sep:{sep}", f"__str__ emits the {sep!r} delimiter")
     # an emission may be suppressed by the ABSENCE of another attribute only where the grammar says so
@@ -242,11 +280,11 @@ def run(ctx):
     glob_if = [n for n in A.body_walk(st.node) if isinstance(n, ast.If) and A.unparse(n.test) == "self.op == '=*'"]
     ok = False
     if glob_if:
-        js = [x for x in ast.walk(glob_if[0].body[0]) if isinstance(x, ast.JoinedStr)]
+        js = [x for s_ in glob_if[0].body for x in ast.walk(s_) if isinstance(x, ast.JoinedStr)]
         if js:
             parts = js[0].values
             ok = (isinstance(parts[0], ast.Constant) and parts[0].value == "=" and isinstance(parts[-1], ast.Constant) and parts[-1].value == "*"
-                  and "cpvstr" in A.unparse(js[0]))
+                  and any(isinstance(v, ast.FormattedValue) and A.unparse(v.value) == "self.cpvstr" for v in parts[1:-1]))
     ctx.check("R4", st, ok, "render-glob", "the =* operator is rendered as '=' + cpvstr + '*'")
     # parser strips in the matching order: '[' use first (from the right), then '::', then ':'
     ctx.floor("R4", 16)
